@@ -16,6 +16,7 @@ _vid = itertools.count(1)
 
 ZERO = (0, 0)
 ONE = (0, 1)
+_CONST_CACHE = {}
 
 
 def bx_xor(a, b):
@@ -180,7 +181,7 @@ class Lin:
 
 
 class IntVal:
-    __slots__ = ("ty", "lo", "hi", "vals", "bits", "lin", "deps", "vid", "cmp", "tags")
+    __slots__ = ("ty", "lo", "hi", "vals", "bits", "lin", "deps", "vid", "cmp", "tags", "_fp")
 
     def __init__(self, ty, lo=None, hi=None, vals=None, bits=None, lin=None, deps=frozenset(), cmp=None, tags=frozenset(), vid=None):
         self.ty = ty
@@ -193,13 +194,21 @@ class IntVal:
         self.cmp = cmp
         self.tags = tags
         self.vid = vid if vid is not None else next(_vid)
+        self._fp = None
 
     @staticmethod
     def const(ty, v):
+        key = (ty.bits, ty.signed, ty.kind, v)
+        t = _CONST_CACHE.get(key)
+        if t is not None:
+            return IntVal(ty, v, v, t[0], t[1], t[2])
         w = ty.bits
         u = v & ((1 << w) - 1)
         bits = tuple((0, (u >> k) & 1) for k in range(w))
-        return IntVal(ty, v, v, frozenset([v]), bits, Lin(v, {}))
+        t = (frozenset([v]), bits, Lin(v, {}))
+        if len(_CONST_CACHE) < 200000:
+            _CONST_CACHE[key] = t
+        return IntVal(ty, v, v, t[0], t[1], t[2])
 
     @staticmethod
     def top(ty, deps=frozenset(), tags=frozenset()):
@@ -256,6 +265,7 @@ class IntVal:
     def fp(self):
         return ("I", self.ty.key(), self.lo, self.hi, self.vals, self.bits, self.lin.key() if self.lin else None, self.deps)
 
+
     def __repr__(self):
         if self.is_const():
             return "%r(%d)" % (self.ty, self.lo)
@@ -295,7 +305,7 @@ class FloatVal:
 
 class AdtVal:
     """struct / enum variant / closure environment"""
-    __slots__ = ("path", "variant", "fields", "kind", "vname")
+    __slots__ = ("path", "variant", "fields", "kind", "vname") + ("_fpc",)
 
     def __init__(self, path, variant, fields, kind="adt", vname=None):
         self.path = path
@@ -315,7 +325,7 @@ class AdtVal:
 
 
 class TupleVal:
-    __slots__ = ("fields",)
+    __slots__ = ("fields",) + ("_fpc",)
 
     def __init__(self, fields):
         self.fields = tuple(fields)
@@ -332,7 +342,7 @@ UNIT = TupleVal(())
 
 class ArrayVal:
     """fixed array or slice contents; elems is a tuple of values or None (unknown contents); n known length or None"""
-    __slots__ = ("elems", "n", "elem_ty", "summary")
+    __slots__ = ("elems", "n", "elem_ty", "summary") + ("_fpc",)
 
     def __init__(self, elems=None, n=None, elem_ty=None, summary=None):
         self.elems = tuple(elems) if elems is not None else None
@@ -383,7 +393,7 @@ class Top:
 
 class Choice:
     """lazy fork: alternatives [(delta_facts, value)]; exactly one alternative holds"""
-    __slots__ = ("alts",)
+    __slots__ = ("alts",) + ("_fpc",)
 
     def __init__(self, alts):
         self.alts = tuple(alts)
@@ -397,7 +407,7 @@ class Choice:
 
 class Opaque:
     """model object with python-side state (reader, vec, string, iterator, map ...); immutable by convention"""
-    __slots__ = ("kind", "data")
+    __slots__ = ("kind", "data") + ("_fpc",)
 
     def __init__(self, kind, data):
         self.kind = kind
@@ -425,6 +435,9 @@ class Opaque:
         return "%s{%s}" % (self.kind, ", ".join("%s=%r" % kv for kv in self.data))
 
 
+_CACHED = None
+
+
 def fp(v):
     if v is None:
         return None
@@ -436,6 +449,14 @@ def fp(v):
         return v
     if isinstance(v, dict):
         return tuple(sorted((k, fp(x)) for k, x in v.items()))
+    if isinstance(v, _CACHED):
+        try:
+            return v._fpc
+        except AttributeError:
+            r = v.fp()
+            # hash-cons the fingerprint to keep comparisons cheap
+            v._fpc = r
+            return r
     return v.fp()
 
 
@@ -524,3 +545,6 @@ def fact_atoms(f):
     if k == "guard":
         return f[1].get("deps", frozenset()) if isinstance(f[1], dict) else frozenset()
     return frozenset()
+
+
+_CACHED = (AdtVal, TupleVal, Choice, Opaque, ArrayVal)
